@@ -104,7 +104,9 @@ func shrink(p *Plan) []*Plan {
 		}
 		if len(nd.CertNames) > 1 {
 			for k := range nd.CertNames {
-				add(func(q *Plan) { q.Nodes[i].CertNames = append(q.Nodes[i].CertNames[:k:k], q.Nodes[i].CertNames[k+1:]...) })
+				add(func(q *Plan) {
+					q.Nodes[i].CertNames = append(q.Nodes[i].CertNames[:k:k], q.Nodes[i].CertNames[k+1:]...)
+				})
 			}
 		}
 	}
